@@ -107,12 +107,23 @@ def portIsOpen (n : Node) (port proto : Nat) : Bool := checkPortIsOpen port prot
 
 /-! ## 2. payloads and the modelled classes -/
 
-/-- addresses and clock readings are opaque naturals -/
+/-- `HttpRequestMethod` as far as `WebServer._process_http_request` distinguishes it -/
+inductive HttpMethod | get | post | other
+deriving DecidableEq, Repr
+
+/-- the path of the requested URL as far as `WebServer._handle_get_request` distinguishes it (after `urlparse` and
+`strip("/")`): empty, starting with `users`, anything else -/
+inductive PathKind | root | users | other
+deriving DecidableEq, Repr
+
+/-- addresses and clock readings are opaque naturals; a URL is known by its index in the rig's URL pool -/
 inductive Payload
   | junk                                                   -- anything no modelled class understands
   | portScan                                               -- `PortScanPayload`
   | dns (name : String) (reply : Option (Option Nat))      -- `DNSPacket(dns_request=name, dns_reply = None | DNSReply(ip | None))`
   | ntp (reply : Option Nat)                               -- `NTPPacket(ntp_reply = None | NTPReply(datetime))`
+  | httpReq (method : HttpMethod) (path : PathKind) (urlId : Nat)   -- `HttpRequestPacket(request_method, request_url)`
+  | httpResp (code : Nat)                                  -- `HttpResponsePacket(status_code = code)` (every shipped sender sets one)
 deriving DecidableEq, Repr
 
 def Payload.isScan : Payload → Bool
@@ -123,6 +134,7 @@ def Payload.isScan : Payload → Bool
 def Payload.isReply : Payload → Bool
   | .dns _ (some _) => true
   | .ntp (some _) => true
+  | .httpResp _ => true
   | _ => false
 
 /-- per-object state of the modelled classes (objects of other classes carry no entry) -/
@@ -131,6 +143,11 @@ inductive Data
   | dnsClient (cache : List (String × Nat)) (server : Option Nat)        -- dns_cache, config.dns_server
   | ntpServer
   | ntpClient (time : Option Nat) (server : Option Nat)                  -- time, config.ntp_server_ip
+  /-- `response_codes_this_timestep`; `db_connection` (the cached connection: do its queries succeed) -/
+  | webServer (codes : List Nat) (conn : Option Bool)
+  /-- `latest_response.status_code` (outer none: no response object yet), `history` as (url, outcome: LOADED code |
+  SERVER_UNREACHABLE), `config.target_url` -/
+  | webBrowser (latest : Option (Option Nat)) (history : List (Nat × Option (Option Nat))) (target : Option Nat)
 deriving DecidableEq, Repr
 
 /-- where a sent payload goes: back along the session it answers, or to an address -/
@@ -163,6 +180,48 @@ def Data.receive (d : Data) (canAct : Bool) (now : Nat) (p : Payload) : Data × 
   -- NTPClient.receive: a reply sets the time; a packet without a reply is refused
   | .ntpClient _ srv, .ntp (some t) => (.ntpClient (some t) srv, .t, [], p)
   | .ntpClient _ _, _ => (d, .f, [], p)
+  -- the web classes need more than this signature offers (the node's software list, a health write): `Data.receiveH`
+  | .webServer _ _, _ => (d, .f, [], p)
+  | .webBrowser _ _ _, _ => (d, .f, [], p)
+
+/-- what `receive` does besides data / return value / sends / payload: a write of `health_state_actual` -/
+abbrev HealthWrite := Option Health
+
+/-- `WebServer._handle_get_request` + `_establish_db_connection`: status code, the connection cached afterwards, health write.
+`db` = what the node's database client hands out now (`software.get("database-client")` there and `get_new_connection()` not
+None: a connection whose queries answer `ok`) — the database side is C17's subject and enters as this verdict. -/
+def webGet (path : PathKind) (conn db : Option Bool) : Nat × Option Bool × HealthWrite :=
+  match path with
+  | .root => (200, conn, none)
+  | .other => (404, conn, none)
+  | .users =>
+    -- `_establish_db_connection`: a cached connection is reused; else the database client is asked for a new one
+    let conn' : Option Bool := match conn with
+      | some ok => some ok
+      | none => db
+    match conn' with
+    | none => (500, none, none)
+    | some true => (200, conn', some .good)          -- query succeeded: `set_health_state(GOOD)`
+    | some false => (404, conn', some .compromised)  -- query failed: `set_health_state(COMPROMISED)`, status stays NOT_FOUND
+
+/-- `receive` of every modelled class (`Data.receive` for the DNS / NTP classes).  Additional input: the database verdict
+(see `webGet`); additional output: the health write. -/
+def Data.receiveH (d : Data) (canAct : Bool) (now : Nat) (db : Option Bool) (p : Payload) :
+    (Data × Ret × List (Dest × Payload) × Payload) × HealthWrite :=
+  if !canAct then ((d, .f, [], p), none) else
+  match d, p with
+  -- WebServer.receive → _process_http_request: GET is handled, POST and any other method get 405; the response goes back
+  -- along the session, its status is appended to `response_codes_this_timestep`; True iff 200
+  | .webServer codes conn, .httpReq .get path _ =>
+    let (code, conn', hw) := webGet path conn db
+    ((.webServer (codes ++ [code]) conn', Ret.ofBool (code == 200), [(.session, .httpResp code)], p), hw)
+  | .webServer codes conn, .httpReq _ _ _ =>     -- POST is not implemented: refused like any unsupported method
+    ((.webServer (codes ++ [405]) conn, .f, [(.session, .httpResp 405)], p), none)
+  | .webServer _ _, _ => ((d, .f, [], p), none)
+  -- WebBrowser.receive: a response becomes `latest_response`
+  | .webBrowser _ hist tgt, .httpResp code => ((.webBrowser (some (some code)) hist tgt, .t, [], p), none)
+  | .webBrowser _ _ _, _ => ((d, .f, [], p), none)
+  | _, _ => (d.receive canAct now p, none)
 
 /-- initial data of a freshly constructed object of class `cid` (`none`: class not modelled) -/
 def Data.init (cid : String) : Option Data :=
@@ -170,6 +229,8 @@ def Data.init (cid : String) : Option Data :=
   else if cid = "DNSClient" then some (.dnsClient [] none)
   else if cid = "NTPServer" then some .ntpServer
   else if cid = "NTPClient" then some (.ntpClient none none)
+  else if cid = "WebServer" then some (.webServer [] none)
+  else if cid = "WebBrowser" then some (.webBrowser none [] none)
   else none
 
 /-! ## 3. a node with class data -/
@@ -195,7 +256,31 @@ structure NetNode where
   n : Node := {}
   data : List (Nat × Data) := []
   now : Nat := 0                 -- what `datetime.now()` reads (environment)
+  dbOffer : Option Bool := none  -- what `DatabaseClient.get_new_connection()` hands out on this node (environment, C17)
 deriving Repr
+
+/-- `set_health_state(h)` on object `u`: `health_state_actual := h`, nothing else -/
+def setActual (n : Node) (u : Nat) (h : Health) : Node :=
+  { n with
+    svcs := n.svcs.map (fun i => { i with s := if i.m.uid = u then { i.s with sw := { i.s.sw with actual := h } } else i.s }),
+    apps := n.apps.map (fun i => { i with a := if i.m.uid = u then { i.a with sw := { i.a.sw with actual := h } } else i.a }) }
+
+/-- the node with every `health_state_actual` blanked: what payload processing never changes -/
+def forget (n : Node) : Node :=
+  { n with
+    svcs := n.svcs.map (fun i => { i with s := { i.s with sw := { i.s.sw with actual := .unused } } }),
+    apps := n.apps.map (fun i => { i with a := { i.a with sw := { i.a.sw with actual := .unused } } }) }
+
+/-- `health_state_actual` of object `u` -/
+def actualOf (n : Node) (u : Nat) : Option Health :=
+  match n.findSvc u with
+  | some i => some i.s.sw.actual
+  | none => (n.findApp u).map (·.a.sw.actual)
+
+/-- the health write of a `receive` call applied to the node -/
+def applyHealthWrite (n : Node) (u : Nat) : HealthWrite → Node
+  | some h => setActual n u h
+  | none => n
 
 namespace NetNode
 
@@ -213,6 +298,9 @@ def step (nn : NetNode) (op : Op) : NetNode × Out :=
   let (n', o) := nn.n.step op
   (({ nn with n := n' } : NetNode).adopt, o)
 
+/-- what the web server's `_establish_db_connection` can get: a database client is installed and hands out a connection -/
+def dbVerdict (nn : NetNode) : Option Bool := if dhas "database-client" nn.n.software then nn.dbOffer else none
+
 /-- `software.receive(payload, session_id, …)` of object `u` for a payload that arrived on `(port, proto)`; the last
 component is the payload object afterwards -/
 def recvAt (nn : NetNode) (u port proto : Nat) (p : Payload) : NetNode × RecvRec × List Sent × Payload :=
@@ -220,8 +308,9 @@ def recvAt (nn : NetNode) (u port proto : Nat) (p : Payload) : NetNode × RecvRe
   match dget u nn.data with
   | none => (nn, { uid := u, handled := can, ret := none }, [], p)
   | some d =>
-    let (d', r, out, p') := d.receive can nn.now p
-    ({ nn with data := dset u d' nn.data }, { uid := u, handled := can, ret := some r },
+    let ((d', r, out, p'), hw) := d.receiveH can nn.now nn.dbVerdict p
+    ({ nn with data := dset u d' nn.data, n := applyHealthWrite nn.n u hw },
+     { uid := u, handled := can, ret := some r },
      out.map (fun (dst, q) => { src := u, dst := dst, port := port, proto := proto, payload := q }), p')
 
 /-- the `receive` calls of one delivery, in order.  The main receiver is handed the frame's own payload object — what it
@@ -404,6 +493,67 @@ def tick (w : World) (side : Side) : Option World :=
     let w1 := nn.n.services.foldl (fun w u => w.tickSvc side u) w
     some (nn.n.applications.foldl (fun w u => w.tickApp side u) w1)
   else some w
+
+/-- host part of a URL: a domain name, or an IPv4 literal (with its text, which is what the DNS client is asked for first) -/
+inductive Host | name (s : String) | addr (a : Nat) (text : String)
+deriving DecidableEq, Repr
+
+def Host.text : Host → String
+  | .name s => s
+  | .addr _ t => t
+
+structure Url where
+  id : Nat               -- index in the rig's URL pool (what `history` records)
+  host : Host
+  port : Option Nat      -- explicit port of the URL
+  path : PathKind
+deriving DecidableEq, Repr
+
+/-- does `IOSoftware.send` towards `ip` report success: the peer has that address and both nodes are ON (the frame is put on
+the link whether or not the peer's port is open) -/
+def sendOk (w : World) (side : Side) (ip : Nat) : Bool :=
+  ip == (w.get side.other).addr && (w.get side).n.isOn && (w.get side.other).n.isOn
+
+inductive BrowseOut | ret (b : Bool) | raised
+deriving DecidableEq, Repr
+
+/-- `WebBrowser.get_webpage(url)` on object `u` of node `side` (`url` = the argument or `config.target_url`):
+guard; `latest_response := 404`; the host is looked up through the node's DNS client (`check_domain_exists`, with the traffic
+that causes) — an unresolved host is still tried as an IPv4 literal; the GET goes to port 80 (or the URL's port) and, being
+delivered synchronously, its response is in `latest_response` when `send` returns; `history` records LOADED with that code,
+or SERVER_UNREACHABLE when the frame could not be sent; True iff the code is 200. -/
+def browse (w : World) (side : Side) (u : Nat) (url : Option Url) : World × BrowseOut :=
+  match dget u (w.get side).data with
+  | some (.webBrowser _ hist tgt) =>
+    if !(w.get side).n.handles u then (w, .ret false) else
+    let w0 := w.set side ((w.get side).setData u (.webBrowser (some (some 404)) hist tgt))
+    match url with
+    | none => (w0, .ret false)
+    | some url =>
+      match dget "dns-client" (w0.get side).n.software with
+      | none => (w0, .raised)                       -- `dns_client.check_domain_exists` on None
+      | some dc =>
+        let (w1, found) := w0.dnsQuery side dc url.host.text
+        let ip : Option Nat :=
+          if found then (w1.get side).dnsCached dc url.host.text
+          else match url.host with
+            | .addr a _ => some a
+            | .name _ => none
+        match ip with
+        | none => (w1, .ret false)
+        | some ip =>
+          let port := url.port.getD 80
+          let ok := w1.sendOk side ip
+          let w2 := if (w1.get side).n.handles u then w1.send side u ip port 1 (.httpReq .get url.path url.id) else w1
+          match dget u (w2.get side).data with
+          | some (.webBrowser latest hist2 tgt2) =>
+            if ok && (w1.get side).n.handles u then
+              let code : Option Nat := latest.getD none
+              (w2.set side ((w2.get side).setData u (.webBrowser latest (hist2 ++ [(url.id, some code)]) tgt2)), .ret (code == some 200))
+            else
+              (w2.set side ((w2.get side).setData u (.webBrowser latest (hist2 ++ [(url.id, none)]) tgt2)), .ret false)
+          | _ => (w2, .ret false)
+  | _ => (w, .ret false)
 
 /-- an injected frame as if from the peer: through `HostNode.receive_frame` (`viaHost`) or straight into
 `SessionManager.receive_frame`; replies travel the transport -/
